@@ -131,6 +131,9 @@ func c08Hit(prefix string) int64 {
 	return n
 }
 
+// c08ConcurrentActivation makes c08Run activate the receiver's group context concurrently with the deliveries.
+var c08ConcurrentActivation bool
+
 func c08Run(ctx context.Context, w *vWorld, account *vReplica, mat *c08Material, steps []c08Step, closeEarly bool, window int) (*c08Outcome, error) {
 	out := &c08Outcome{delivered: map[string]int{}, senderOf: map[string]string{}, parked: map[int]int{}}
 	verifsched.SetRole("driver")
@@ -156,9 +159,27 @@ func c08Run(ctx context.Context, w *vWorld, account *vReplica, mat *c08Material,
 			mu.Unlock()
 		}
 	}()
-	if err := gc.ActivateGroupContext(nil); err != nil {
-		return nil, fmt.Errorf("activate: %w", err)
+	// activation: normally completed before anything arrives; in the "during activation" scenarios it runs as a task of
+	// its own (role "activator") while the deliveries are made, as when a device opens a group other members are writing to
+	actDone := make(chan error, 1)
+	if c08ConcurrentActivation {
+		go func() {
+			verifsched.SetRole("activator")
+			defer verifsched.ClearRole()
+			actDone <- gc.ActivateGroupContext(nil)
+		}()
+	} else {
+		if err := gc.ActivateGroupContext(nil); err != nil {
+			return nil, fmt.Errorf("activate: %w", err)
+		}
+		actDone <- nil
 	}
+	defer func() {
+		select {
+		case <-actDone:
+		case <-time.After(30 * time.Second):
+		}
+	}()
 	for _, st := range steps {
 		snd := mat.senders[st.sender]
 		if st.kind == "meta" {
@@ -169,6 +190,17 @@ func c08Run(ctx context.Context, w *vWorld, account *vReplica, mat *c08Material,
 			if err := vDeliver(ctx, gc.MessageStore(), []ipfslog.Entry{snd.msgs[st.upto-1].entry}); err != nil {
 				return nil, err
 			}
+		}
+	}
+	if c08ConcurrentActivation {
+		select {
+		case err := <-actDone:
+			actDone <- nil
+			if err != nil {
+				return nil, fmt.Errorf("activate: %w", err)
+			}
+		case <-time.After(40 * time.Second):
+			out.watchdog = "activation did not return"
 		}
 	}
 	if closeEarly {
@@ -210,12 +242,24 @@ func c08Quiesce(gc *GroupContext, arrivals int) (int, string) {
 		metaLen := int64(gc.MetadataStore().OpLog().Len())
 		queued := c08Hit("store_message.go:addToMessageQueue:exit")
 		handled := c08Hit("group_context.go:handleGroupMetadataEvent:exit")
-		if queued < int64(arrivals) || handled < metaLen {
+		// entries that arrived while the group was being activated are taken up by the activation's own replay, not by
+		// the watcher: there the handler counter cannot be compared with the log; the watcher must be idle instead and
+		// the quiet period is longer
+		relaxed := c08ConcurrentActivation
+		if queued < int64(arrivals) || (!relaxed && handled < metaLen) {
 			stableFor = 0
 			continue
 		}
 		consumerParked := false
+		handlerBusy := false
 		for _, g := range verifsched.Goroutines() {
+			if g.Role == "metahandler" {
+				for _, f := range g.Frames {
+					if strings.Contains(f, "handleGroupMetadataEvent") {
+						handlerBusy = true
+					}
+				}
+			}
 			if g.Role != "consumer" {
 				continue
 			}
@@ -231,13 +275,13 @@ func c08Quiesce(gc *GroupContext, arrivals int) (int, string) {
 		}
 		qlen := gc.MessageStore().messagesQueue.VerifLen()
 		sig := fmt.Sprintf("%d/%d/%d/%v/%d/%d", metaLen, queued, handled, consumerParked, qlen, verifsched.TotalHits())
-		if !consumerParked || sig != lastSig {
+		if !consumerParked || sig != lastSig || (relaxed && handlerBusy) {
 			lastSig = sig
 			stableFor = 0
 			continue
 		}
 		stableFor++
-		if stableFor < 3 {
+		if stableFor < 3 || (relaxed && stableFor < 40) {
 			continue
 		}
 		return qlen, ""
@@ -328,7 +372,7 @@ func TestVerifC08(t *testing.T) {
 	rep := verifkit.NewReport("C08", "c08-pipeline")
 	defer rep.Finish(t)
 	rep.Rule = "a receiver device with an activated group context on sync-point-instrumented sources (store_message.go, group_context.go chain-key path, internal/queue) receives prepared log entries of 1-3 senders by delivery plans " +
-		"(messages singly / in batches, announcement before, between and after them, senders interleaved, messages sealed before the announcement, early close); each plan runs un-perturbed, under profile jitter, under pair plans between the store's own tasks " +
+		"(messages singly / in batches, announcement before, between and after them, senders interleaved, messages sealed before the announcement, a backlog larger than the key window as one batch, deliveries made WHILE the receiver activates the group (activation as a task of its own), early close); each plan runs un-perturbed, under profile jitter, under pair plans between the store's own tasks " +
 		"(event task, processing loop, metadata handler) and the driver, and under seeded jitter; quiescence = all arrivals queued, all metadata handled, processing loop parked (from counters and goroutine states); " +
 		"oracle: delivered == arrived and decryptable, exactly once, right payload and sender; nothing decryptable parked; queue empty. distinct = (delivery plan, schedule plan realised)"
 	rep.Assume("pair forcing at the instrumented points plus jitter, not all interleavings")
@@ -340,6 +384,9 @@ func TestVerifC08(t *testing.T) {
 		{"store_message.go:processMessageLoop:", "consumer"},
 		{"store_message.go:constructorFactoryGroupMessage:select-case", "msgevents"},
 		{"group_context.go:handleGroupMetadataEvent:", "metahandler"},
+		{"group_context.go:ActivateGroupContext:go-start", "activation-task"},
+		{"group_context.go:fillMessageKeysHolderUsingPreviousData:", "activation-task"},
+		{"group_context.go:sendSecretsToExistingMembers:", "activation-task"},
 	})
 	defer verifsched.SetAutoRoles(nil)
 	if !verifkit.Thorough() {
@@ -353,38 +400,43 @@ func TestVerifC08(t *testing.T) {
 		steps                  func(mat *c08Material) []c08Step
 		closeEarly             bool
 		window                 int // receiver's message-key window (0 = default 100)
+		duringActivation       bool
 	}
 	all := func(s int, mat *c08Material) int { return len(mat.senders[s].msgs) }
 	scens := []scen{
-		{"msgs-then-announce", 1, 0, 2, func(m *c08Material) []c08Step { return []c08Step{{"msgs", 0, all(0, m)}, {"meta", 0, 0}} }, false, 0},
+		{"msgs-then-announce", 1, 0, 2, func(m *c08Material) []c08Step { return []c08Step{{"msgs", 0, all(0, m)}, {"meta", 0, 0}} }, false, 0, false},
 		{"announce-then-msgs-singly", 1, 0, 3, func(m *c08Material) []c08Step {
 			return []c08Step{{"meta", 0, 0}, {"msgs", 0, 1}, {"msgs", 0, 2}, {"msgs", 0, 3}}
-		}, false, 0},
+		}, false, 0, false},
 		{"announce-between", 1, 1, 3, func(m *c08Material) []c08Step {
 			return []c08Step{{"msgs", 0, 2}, {"meta", 0, 0}, {"msgs", 0, 4}}
-		}, false, 0},
-		{"single-msg-then-announce", 1, 0, 1, func(m *c08Material) []c08Step { return []c08Step{{"msgs", 0, 1}, {"meta", 0, 0}} }, false, 0},
+		}, false, 0, false},
+		{"single-msg-then-announce", 1, 0, 1, func(m *c08Material) []c08Step { return []c08Step{{"msgs", 0, 1}, {"meta", 0, 0}} }, false, 0, false},
 		{"undecryptable-first-then-announce", 1, 1, 2, func(m *c08Material) []c08Step {
 			return []c08Step{{"msgs", 0, 3}, {"meta", 0, 0}}
-		}, false, 0},
+		}, false, 0, false},
 		{"two-senders-interleaved", 2, 0, 2, func(m *c08Material) []c08Step {
 			return []c08Step{{"msgs", 0, 1}, {"msgs", 1, 2}, {"meta", 1, 0}, {"msgs", 0, 2}, {"meta", 0, 0}}
-		}, false, 0},
+		}, false, 0, false},
 		// a backlog larger than the receiver's key window arrives as ONE replication batch (the store sees it newest first):
 		// the entries beyond the window cannot open at first and become openable as the older ones open
-		{"backlog-beyond-window-after-announce", 1, 0, 9, func(m *c08Material) []c08Step { return []c08Step{{"meta", 0, 0}, {"msgs", 0, all(0, m)}} }, false, 3},
-		{"backlog-beyond-window-before-announce", 1, 0, 9, func(m *c08Material) []c08Step { return []c08Step{{"msgs", 0, all(0, m)}, {"meta", 0, 0}} }, false, 3},
+		{"backlog-beyond-window-after-announce", 1, 0, 9, func(m *c08Material) []c08Step { return []c08Step{{"meta", 0, 0}, {"msgs", 0, all(0, m)}} }, false, 3, false},
+		{"backlog-beyond-window-before-announce", 1, 0, 9, func(m *c08Material) []c08Step { return []c08Step{{"msgs", 0, all(0, m)}, {"meta", 0, 0}} }, false, 3, false},
+		// the sender's announcement and messages arrive WHILE the receiver activates the group (activation replays the
+		// metadata it finds and starts the watcher): nothing that arrives in that window may be lost
+		{"announce-during-activation", 1, 0, 3, func(m *c08Material) []c08Step { return []c08Step{{"meta", 0, 0}, {"msgs", 0, all(0, m)}} }, false, 0, true},
+		{"msgs-and-announce-during-activation", 1, 0, 2, func(m *c08Material) []c08Step { return []c08Step{{"msgs", 0, all(0, m)}, {"meta", 0, 0}} }, false, 0, true},
 	}
 	if verifkit.Thorough() {
 		scens = append(scens,
 			scen{"three-senders-batches", 3, 1, 4, func(m *c08Material) []c08Step {
 				return []c08Step{{"msgs", 2, 5}, {"meta", 0, 0}, {"msgs", 0, 3}, {"msgs", 1, 5}, {"meta", 2, 0}, {"msgs", 0, 5}, {"meta", 1, 0}}
-			}, false, 0},
-			scen{"never-announced", 2, 0, 3, func(m *c08Material) []c08Step { return []c08Step{{"msgs", 0, 3}, {"msgs", 1, 3}, {"meta", 1, 0}} }, false, 0},
-			scen{"close-early", 1, 0, 3, func(m *c08Material) []c08Step { return []c08Step{{"msgs", 0, 3}, {"meta", 0, 0}} }, true, 0},
+			}, false, 0, false},
+			scen{"never-announced", 2, 0, 3, func(m *c08Material) []c08Step { return []c08Step{{"msgs", 0, 3}, {"msgs", 1, 3}, {"meta", 1, 0}} }, false, 0, false},
+			scen{"close-early", 1, 0, 3, func(m *c08Material) []c08Step { return []c08Step{{"msgs", 0, 3}, {"meta", 0, 0}} }, true, 0, false},
 		)
 	} else {
-		scens = append(scens, scen{"close-early", 1, 0, 3, func(m *c08Material) []c08Step { return []c08Step{{"msgs", 0, 3}, {"meta", 0, 0}} }, true, 0})
+		scens = append(scens, scen{"close-early", 1, 0, 3, func(m *c08Material) []c08Step { return []c08Step{{"msgs", 0, 3}, {"meta", 0, 0}} }, true, 0, false})
 	}
 	realisedTotal, plannedTotal, runs := 0, 0, 0
 	instrumented := false
@@ -401,7 +453,9 @@ func TestVerifC08(t *testing.T) {
 			if install != nil {
 				install()
 			}
+			c08ConcurrentActivation = sc.duringActivation
 			o, err := c08Run(ctx, w, account, mat, steps, sc.closeEarly, sc.window)
+			c08ConcurrentActivation = false
 			runs++
 			if err != nil {
 				rep.Inconclusivef("%s under %s: %v", sc.name, plan, err)
@@ -434,6 +488,12 @@ func TestVerifC08(t *testing.T) {
 		plans := verifsched.PairPlans(prof, int64(verifkit.Pick(1, 2)))
 		var kept []verifsched.Hold
 		for _, h := range plans {
+			if sc.duringActivation && h.ARole != "activator" && h.ARole != "activation-task" {
+				continue // these scenarios are about the activation's own tasks being suspended while things arrive
+			}
+			if !sc.duringActivation && (h.ARole == "activation-task" || h.BRole == "activation-task") {
+				continue // activation is over before anything arrives
+			}
 			if verifsched.PlanFilter == nil || verifsched.PlanFilter(h) {
 				kept = append(kept, h)
 			}
@@ -442,6 +502,9 @@ func TestVerifC08(t *testing.T) {
 		if sc.window > 0 {
 			// the backlog scenarios are long (many re-injections): a thinner sample of pair plans
 			maxPlans = verifkit.Pick(50, 200)
+		}
+		if sc.duringActivation {
+			maxPlans = verifkit.Pick(80, 400) // each run waits for a longer quiet period
 		}
 		if len(kept) > maxPlans {
 			k := (len(kept) + maxPlans - 1) / maxPlans
